@@ -7,5 +7,5 @@ CONSTANTS
   GenVars = {"x"}
   SimpleKinds = {"assign", "use", "call", "continue", "break", "return"}
   Shape = "loop"
-INVARIANT InvAll
+INVARIANT InvAllLive
 CHECK_DEADLOCK FALSE
